@@ -489,4 +489,12 @@ structure SemRefinesSizesMigs (A gs : DemogSem) : Prop where
 
 end NoMoves
 
+/-! ## Graph → ms → graph with chains of pulses (§10 of Theorems/C09.lean) -/
+
+/-- every pulse proportion is below one — the first clause of `PulsesTame` (F6: a pulse of proportion 1 is printed
+`-es t d 0.0 -ej …`, which `from_ms` rejects), without the clause on the order of same-time pulses: the `to_ms`
+encoding of such a graph lies in the fragment `C08.Tame3` -/
+def PulsesBelowOne (g : Graph) : Bool :=
+  g.pulses.all (fun p => p.proportions.all (fun x => decide (x < 1)))
+
 end Demes.Spec.C09
